@@ -28,8 +28,111 @@ func init() {
 			{ID: "C08.R4", Min: 8, Doc: "crash-point inventory: filesystem-mutating calls reachable from ioLoop, NewDiskQueue, Close, Delete compared with the reviewed list", Run: c08r4},
 			{ID: "C08.R5", Min: 2, Doc: "resume at persisted position: Seek(writePos/readPos, 0) follows the open of the segment under `pos > 0`", Run: c08r5},
 			{ID: "C08.R6", Min: 2, Doc: "handleReadError: nextReadFileNum is loaded from readFileNum after its increment; nextReadPos is 0 or loaded from readPos after it was set to 0", Run: c08r6},
+			{ID: "C08.R7", Min: 3, Doc: "metadata content: persistMetaData writes, and retrieveMetaData reads back, depth, readFileNum, readPos, writeFileNum, writePos in this order with the same format string; the consumer cursor (not the read-ahead cursor nextRead*) is what is persisted, and the read-ahead cursor is re-derived from it on load", Run: c08r7},
 		},
 	})
+}
+
+func c08r7(c *Check) {
+	want := []string{"depth", "readFileNum", "readPos", "writeFileNum", "writePos"}
+	pm := c.P.Func("nsqd", "*DiskQueue", "persistMetaData")
+	rm := c.P.Func("nsqd", "*DiskQueue", "retrieveMetaData")
+	// writer
+	var wfmt, rfmt string
+	var wnames, rnames []string
+	var wcall, rcall ssa.Instruction
+	allInstrs(pm, func(in ssa.Instruction) {
+		call, ok := in.(*ssa.Call)
+		if !ok || calleeName(call.Common()) != "fmt.Fprintf" {
+			return
+		}
+		wcall = in
+		wfmt, _ = constString(call.Call.Args[1])
+		elems, ok := variadicElems(call.Call.Args[2])
+		if !ok {
+			return
+		}
+		for _, e := range elems {
+			name := "?"
+			if cl, ok := e.(*ssa.Call); ok && calleeName(cl.Common()) == "sync/atomic.LoadInt64" {
+				if fa, ok := cl.Call.Args[0].(*ssa.FieldAddr); ok {
+					name = fieldOfAddr(fa).Name()
+				}
+			} else if _, f, ok := fieldLoad(e); ok {
+				name = f.Name()
+			}
+			wnames = append(wnames, name)
+		}
+	})
+	if wcall == nil {
+		anchorFail("persistMetaData: no fmt.Fprintf call")
+	}
+	c.Judge(strings.Join(wnames, ",") == strings.Join(want, ","), "nsqd.persistMetaData persists depth and the consumer/writer cursors", c.At(wcall), "writes "+strings.Join(want, ", "), fmt.Sprintf("the metadata file is written from %v instead of %v: after a restart the queue resumes at a position that is not the first undelivered message / the end of the written data", wnames, want))
+	// reader
+	depthVia := ""
+	allInstrs(rm, func(in ssa.Instruction) {
+		call, ok := in.(*ssa.Call)
+		if !ok || calleeName(call.Common()) != "fmt.Fscanf" {
+			return
+		}
+		rcall = in
+		rfmt, _ = constString(call.Call.Args[1])
+		elems, ok := variadicElems(call.Call.Args[2])
+		if !ok {
+			return
+		}
+		for _, e := range elems {
+			name := "?"
+			switch a := e.(type) {
+			case *ssa.FieldAddr:
+				name = fieldOfAddr(a).Name()
+			case *ssa.Alloc:
+				// a local that is afterwards stored into a field (atomic.StoreInt64(&d.depth, depth))
+				for _, r := range *a.Referrers() {
+					ld, ok := r.(*ssa.UnOp)
+					if !ok {
+						continue
+					}
+					for _, rr := range *ld.Referrers() {
+						if cl, ok := rr.(*ssa.Call); ok && calleeName(cl.Common()) == "sync/atomic.StoreInt64" && cl.Call.Args[1] == ssa.Value(ld) {
+							if fa, ok := cl.Call.Args[0].(*ssa.FieldAddr); ok {
+								name = fieldOfAddr(fa).Name()
+								depthVia = "atomic.StoreInt64"
+							}
+						}
+						if st, ok := rr.(*ssa.Store); ok && st.Val == ssa.Value(ld) {
+							if fa, ok := st.Addr.(*ssa.FieldAddr); ok {
+								name = fieldOfAddr(fa).Name()
+							}
+						}
+					}
+				}
+			}
+			rnames = append(rnames, name)
+		}
+	})
+	_ = depthVia
+	if rcall == nil {
+		anchorFail("retrieveMetaData: no fmt.Fscanf call")
+	}
+	c.Judge(strings.Join(rnames, ",") == strings.Join(want, ","), "nsqd.retrieveMetaData restores depth and the consumer/writer cursors", c.At(rcall), "reads into "+strings.Join(want, ", "), fmt.Sprintf("the metadata file is read into %v instead of %v", rnames, want))
+	c.Judge(wfmt == rfmt && wfmt != "", "nsqd metadata format agrees between writer and reader", c.At(wcall), fmt.Sprintf("%q", wfmt), fmt.Sprintf("persistMetaData writes %q but retrieveMetaData parses %q", wfmt, rfmt))
+	// read-ahead cursor re-derived from the consumer cursor
+	derived := map[string]string{}
+	allInstrs(rm, func(in ssa.Instruction) {
+		st, ok := in.(*ssa.Store)
+		if !ok {
+			return
+		}
+		fa, ok := st.Addr.(*ssa.FieldAddr)
+		if !ok {
+			return
+		}
+		if _, f, ok := fieldLoad(st.Val); ok && instrDominates(rcall, in) {
+			derived[fieldOfAddr(fa).Name()] = f.Name()
+		}
+	})
+	c.Judge(derived["nextReadFileNum"] == "readFileNum" && derived["nextReadPos"] == "readPos", "nsqd.retrieveMetaData read-ahead cursor starts at the consumer cursor", c.AtFn(rm), "nextReadFileNum = readFileNum; nextReadPos = readPos after the metadata was parsed", fmt.Sprintf("after loading the metadata the read-ahead cursor is set from %v: the first message read after a restart is not the first undelivered one", derived))
 }
 
 const nsqdDQ = "(*" + modPath + "/nsqd.DiskQueue)."
